@@ -1,9 +1,11 @@
 (* C14 — RTSP wire codec round-trips and frames interleaved data exactly.
    Statements only; proofs are in Proofs/C14RtspCodecProofs.v and C14RtspCodecProofs2.v.
-   [url] is net/url (ParseRequestURI + host fix + String) as an arbitrary function; the
-   round-trip guards contain the law  url u = Some u  for the URLs of the written requests. *)
+   [url] is net/url's parser (ParseRequestURI) as an arbitrary function into the parsed fields
+   [gourl]; the round-trip guards contain the law  url (String of the emitted URL) = that URL.
+   ReadRequest's own treatment of the parsed URL (the dangling-':' host fix) is modelled and
+   proved exact over all structured URLs [surl]. *)
 From Coq Require Import ZArith List Bool.
-From V Require Import Val Bytes StrGo C14RtspCodec C14RtspCodecProofs C14RtspCodecProofs2.
+From V Require Import Val Bytes StrGo C14RtspCodec C14RtspCodecProofs C14RtspCodecProofs2 C14UrlProofs.
 Import ListNotations.
 Open Scope Z_scope.
 
@@ -26,6 +28,79 @@ Theorem C14_frame_roundtrip : forall cfg ch data rest,
   read_packet cfg (write_packet cfg ch data ++ rest) = Ok (EvPack ch data) rest.
 Proof. exact frame_roundtrip. Qed.
 Print Assumptions C14_frame_roundtrip.
+
+(* ---- the Request-URI as a structured value (scheme, userinfo, reg-name / IPv4 / IPv6 literal
+   with zone, port / empty port / no port, path, query; "*"; path only) ---- *)
+
+(* what ReadRequest itself does to url.URL.Host: for every authority of the grammar the result
+   is the Host of the same authority with only an empty port dropped — the brackets of an IPv6
+   literal, a zone, a numeric port stay *)
+Theorem C14_host_fix_exact : forall au, auth_wf au = true ->
+  fix_host (go_host au) = go_host (drop_empty_port_au au).
+Proof. exact host_fix_exact. Qed.
+Print Assumptions C14_host_fix_exact.
+
+Theorem C14_fix_url_exact : forall u, surl_wf u = true ->
+  fix_url (gourl_of u) = gourl_of (drop_empty_port u).
+Proof. exact fix_url_exact. Qed.
+Print Assumptions C14_fix_url_exact.
+
+(* Hostname() and Port() (net/url's splitHostPort, modelled) on any authority of the grammar *)
+Theorem C14_hostname_port_exact : forall au, auth_wf au = true ->
+  split_host_port (go_host au) = (host_text (a_host au), port_text au).
+Proof. exact hostname_port_exact. Qed.
+Print Assumptions C14_hostname_port_exact.
+
+(* a written request whose URL is any structured URL reads back with exactly that URL, an empty
+   port dropped and nothing else changed; Hostname()/Port() of the result are the emitted ones *)
+Theorem C14_request_url_roundtrip : forall url q u rest,
+  q_url q = gourl_of u -> surl_wf u = true -> request_wf url q = true ->
+  read_request url (write_request q ++ rest) =
+    Ok {| q_method := q_method q; q_url := gourl_of (drop_empty_port u); q_proto := RTSP10;
+          q_hdr := norm_hdr (q_hdr q) (q_body q); q_body := q_body q |} rest /\
+  match u with
+  | SAbs _ au _ _ =>
+      split_host_port (g_host (gourl_of (drop_empty_port u))) = (host_text (a_host au), port_text au)
+  | _ => True
+  end.
+Proof. exact request_url_roundtrip. Qed.
+Print Assumptions C14_request_url_roundtrip.
+
+(* the oracle of the URL stream accepts the model *)
+Theorem C14_url_model_passes : forall u,
+  ok_url u (surl_print u) (gourl_of u) (fix_url (gourl_of u)) = true.
+Proof. exact url_model_passes. Qed.
+Print Assumptions C14_url_model_passes.
+
+(* the class of change this guards against: taking the host apart with SplitHostPort to drop the
+   empty port loses the brackets of an IPv6 literal *)
+Theorem C14_fix_host_split_refuted :
+  let au := {| a_user := None; a_host := HV6 [58; 58; 49] None; a_port := Some [] |} in
+  auth_wf au = true /\ fix_host_split (go_host au) <> go_host (drop_empty_port_au au) /\
+  fix_host (go_host au) = go_host (drop_empty_port_au au).
+Proof. exact fix_host_split_refuted. Qed.
+Print Assumptions C14_fix_host_split_refuted.
+
+(* the pull client: the URL it keeps for its requests is the configured one without userinfo and
+   with the default port where none (or an empty one) was given — for every host class, the
+   brackets of an IPv6 literal included; its request is read back with exactly that URL *)
+Theorem C14_pull_url_exact : forall u, pull_wf u = true -> pull_url (gourl_of u) = gourl_of (pull_norm u).
+Proof. exact pull_url_exact. Qed.
+Print Assumptions C14_pull_url_exact.
+
+Theorem C14_pull_model_passes : forall u,
+  ok_pull u (pull_url (gourl_of u)) (fix_url (pull_url (gourl_of u))) = true.
+Proof. exact pull_model_passes. Qed.
+Print Assumptions C14_pull_model_passes.
+
+(* before the repair (Hostname() + ":554") *)
+Theorem C14_pull_host_refuted :
+  let au := {| a_user := None; a_host := HV6 [58; 58; 49] None; a_port := None |} in
+  auth_wf au = true /\ v6_colon (a_host au) = true /\
+  pull_host_gen false (go_host au) <> go_host (pull_norm_au au) /\
+  pull_host_gen true (go_host au) = go_host (pull_norm_au au).
+Proof. exact pull_host_refuted. Qed.
+Print Assumptions C14_pull_host_refuted.
 
 (* the dispatcher consumes exactly one message or frame *)
 Theorem C14_receive_exact : forall url cfg it rest,
@@ -91,11 +166,11 @@ Proof. exact rtp_hdr_check_no_fuel. Qed.
 Print Assumptions C14_rtp_hdr_check_no_fuel.
 
 (* the oracle applied to the implementation accepts the model: written streams ... *)
-Theorem C14_model_passes : forall cfg items tail slack,
+Theorem C14_model_passes : forall url cfg items tail slack,
   0 <= slack ->
   let s := concat_items cfg items ++ tail in
-  let '(evs, fin) := model_obs url_accept 0 cfg s in
-  ok_items cfg items tail slack s evs fin (zlen s) = true.
+  let '(evs, fin) := model_obs url 0 cfg s in
+  ok_items url cfg items tail slack s evs fin (zlen s) = true.
 Proof. exact model_passes_items. Qed.
 Print Assumptions C14_model_passes.
 
@@ -129,17 +204,24 @@ Theorem C14_packet_panic_refuted :
 Proof. exact read_packet_panic_refuted. Qed.
 Print Assumptions C14_packet_panic_refuted.
 
-(* non-vacuity: a request with an odd-case multi-valued header and a body, a response and
-   two frames satisfy the guards, and the loop reads them back *)
+(* non-vacuity: a request whose URL is an IPv6 literal with an EMPTY port, odd-case and
+   multi-valued header fields and a body, a response and two frames satisfy the guards; the loop
+   reads them back; the request's Host comes back as "[::1]" (brackets kept, ':' dropped) *)
 Example C14_nonvacuous :
   let cfg := [0; 1; 2; 3] in
-  let q := {| q_method := [80;76;65;89]; q_url := [114;116;115;112;58;47;47;91;58;58;49;93;47;97]; q_proto := RTSP10;
+  let u := SAbs [114;116;115;112] {| a_user := None; a_host := HV6 [58;58;49] None; a_port := Some [] |} [47;97] None in
+  let url := fun s => if bytes_eqb s (surl_print u) then Some (gourl_of u) else None in
+  let q := {| q_method := [80;76;65;89]; q_url := gourl_of u; q_proto := RTSP10;
               q_hdr := [([99;115;101;113], [[49]]); ([88;45;70], [[97]; [98]])]; q_body := [104;105] |} in
   let p := {| p_proto := RTSP10; p_code := 200; p_status := []; p_hdr := [([67;83;101;113], [[49]])]; p_body := [] |} in
   let items := [IReq q; IPack 1 [1;2;3]; IResp p; IPack 0 [128;96;0;1;0;0;0;0;0;0;0;0;7]] in
-  forallb (item_wf url_accept cfg) items = true /\
+  surl_wf u = true /\
+  surl_print u = [114;116;115;112;58;47;47;91;58;58;49;93;58;47;97] /\
+  forallb (item_wf url cfg) items = true /\
+  g_host (q_url (norm_request q)) = [91;58;58;49;93] /\
+  split_host_port (g_host (q_url (norm_request q))) = ([58;58;49], []) /\
   hvals (q_hdr (norm_request q)) [67;83;101;113] = [[49]] /\
   hvals (q_hdr (norm_request q)) [88;45;70] = [[97;44;32;98]] /\
-  snd (read_stream (receive url_accept cfg) (concat_items cfg items)) = FDone /\
-  length (fst (read_stream (receive url_accept cfg) (concat_items cfg items))) = 4%nat.
+  snd (read_stream (receive url cfg) (concat_items cfg items)) = FDone /\
+  length (fst (read_stream (receive url cfg) (concat_items cfg items))) = 4%nat.
 Proof. vm_compute. repeat split. Qed.
